@@ -1294,13 +1294,18 @@ impl Generatable for Expression
 				let mut arguments: Vec<LLVMValueRef> = arguments?;
 
 				let result = unsafe {
-					LLVMBuildCall(
+					let call = LLVMBuildCall(
 						llvm.builder,
 						function,
 						arguments.as_mut_ptr(),
 						arguments.len() as u32,
 						cstr!(""),
-					)
+					);
+					// A call with another calling convention than its callee
+					// is undefined behaviour (and optimized into a trap).
+					let callconv = LLVMGetFunctionCallConv(function);
+					LLVMSetInstructionCallConv(call, callconv);
+					call
 				};
 				Ok(result)
 			}
